@@ -2,6 +2,7 @@ CONSTANTS MaxEntries = 3
  Allowances = {1, 2, 3}
  Budget = 6
  Canonical = TRUE
+ Flaw_SyntheticCaseOnErrorsOnly = FALSE
  Emit = TRUE
 SPECIFICATION Spec
 INVARIANTS CountsOK VerdictOK LoopShape StopMeansPass EmitCase
